@@ -81,6 +81,7 @@ func ErrClass(err error) string {
 		{"not a system partition", "ENotSystem"},
 		{"unexpected data type", "EUnexpectedType"},
 		{"integer overflow when calculating alignment", "EAlignOverflow"},
+		{"object ID would overflow", "EIDOverflow"},
 		{"truncation out of range", "ETruncRange"},
 		{"launch script too large", "ELaunchLen"},
 		{"descriptor capacity not supported", "ECapNotSupported"},
